@@ -5,6 +5,7 @@ def check(ctx):
     kernel.run_tables(ctx, 'C01', [
         ('Environment', '__init__'), ('Environment', 'schedule'), ('Environment', 'step'), ('Environment', 'peek'),
         ('Timeout', '__init__'), ('Initialize', '__init__'), ('Interruption', '__init__'),
+        ('RealtimeEnvironment', '__init__'),
     ])
     whomay.kernel_state_writers(ctx, 'C01')
     whomay.schedule_sites(ctx, 'C01')
